@@ -55,6 +55,10 @@ def main(argv=None):
             json.dump(res.dump(), f, default=repr)
         return 0
 
+    # install icontract once, before workers start (concurrent installs into one directory would race)
+    from . import contracts
+
+    contracts.ensure_icontract()
     nshards = 1 if args.no_shard else getattr(mod, "SHARDS", {}).get(args.tier, 1)
     timeout = getattr(mod, "TIMEOUT", {}).get(args.tier, 900)
     if nshards > 1:
